@@ -22,7 +22,7 @@ RULE = ("operation sequences of 1..5 filters (all 8 registered filters + custom_
         "(missing / uncollectable values included); plus config-driven runs (generate + _apply_filters_from_config and the "
         "public from_config) for filter lists of length 0..4; plus every 2-filter sequence over a fixed 6-maze dataset. "
         "non-trivial = a sequence in which at least one filter dropped some but not all mazes or metadata was collected; "
-        "distinct = distinct (dataset, op list) description")
+        "distinct = distinct (dataset, op list) description; later additions: non-default input configurations (generator, kwargs, endpoint options, seq_len: a filter must keep them), the direct route MazeDatasetFilters.<name>(ds, ...), 100-160-maze datasets, int8-stored duplicates, in-place edit sequences, far endpoints (distance / length around 127..129 and beyond) on 70/100/128 grids with int8 and int64 coordinates, raising filters")
 ASSUMPTIONS = [
     "np.percentile is a parameter of the model: the harness records numpy's own value for the lengths at hand (exact dyadic) and the model truncates it",
     "copy.deepcopy(MazeDataset) = MazeDataset.load(_serialize_full()) reproduces maze arrays and generation_meta values (compared on every step) and stringifies the keys of generation_metadata_collected (JSON; compared as str(key))",
